@@ -24,7 +24,11 @@ def world():
         regs.append({"name": "rpx%d" % pid, "secret": "s-px%d" % pid, "transport": "prefix", "prefix_id": pid, "state": "valid", "phantom": "P1"})
     # the same flights against a phantom that carries only the target registration
     regs.append({"name": "rsolo", "secret": "s-solo", "transport": "min", "prefix_id": 0, "state": "valid", "phantom": "P2"})
-    return {"phantoms": {"P1": "192.122.190.10", "P2": "192.122.190.11"}, "regs": regs}
+    # an IPv6 phantom with one registration per transport
+    regs += [{"name": "v6min", "secret": "s-v6min", "transport": "min", "prefix_id": 0, "state": "valid", "phantom": "V6a"},
+             {"name": "v6px", "secret": "s-v6px", "transport": "prefix", "prefix_id": 2, "state": "valid", "phantom": "V6a"},
+             {"name": "v6obfs", "secret": "s-v6obfs", "transport": "obfs4", "prefix_id": 0, "state": "valid", "phantom": "V6a"}]
+    return {"phantoms": {"P1": "192.122.190.10", "P2": "192.122.190.11", "V6a": "2001:48a8:687f:1::a:1"}, "regs": regs}
 
 
 def run(ctx):
@@ -74,6 +78,13 @@ def run(ctx):
     for i in range(ob):
         c = [rng.choice([1, 31, 32, 33, 63, 64, 65, 100, 500, 1000, 2000, 4095, 4096, 4097, 8000]) for _ in range(rng.choice([1, 1, 2, 3]))]
         add(cc.stream(**{"from": "robfs", "early": rng.choice([0, 16, 3000]), "late": 16}), c, pace_ms=rng.choice([1, 3, 10]))
+    # ---- the same on an IPv6 phantom
+    for c1 in rng.sample(range(1, 48), 12):
+        add(cc.stream(**{"from": "v6min", "early": 16, "late": 8}), [c1], dst="V6a")
+    for c1 in rng.sample(range(1, 17 + 64 + 16), 16):
+        add(cc.stream(**{"from": "v6px", "client_px": 2, "flush": rng.choice([0, 1, 2]), "early": 16, "late": 8}), [c1], dst="V6a")
+    for i in range(6):
+        add(cc.stream(**{"from": "v6obfs", "early": rng.choice([0, 16]), "late": 16}), [rng.choice([32, 64, 100, 1000])], dst="V6a")
     # ---- random k-cut segmentations with pauses, all transports
     for i in range(400 if thorough else 60):
         pid = rng.choice(list(cc.PLEN))
